@@ -9,6 +9,7 @@ import Mochi.Driver.Codec
 import Mochi.Driver.Broker
 import Mochi.Driver.BrokerSpec
 import Mochi.Driver.WriteBuf
+import Mochi.Driver.Storage
 open Mochi.Driver
 
 structure DState where
@@ -17,6 +18,7 @@ structure DState where
   bufpool : BState := {}
   broker : BkState := {}
   writebuf : WState := {}
+  storage : St.StState := {}
 
 /-- input line: `op args…<TAB>implementation output`;
     answer line: `model output<TAB>spec verdict<TAB>signature`; unknown op => `bad-op` -/
@@ -47,7 +49,10 @@ def answer (st : DState) (line : String) : DState × String :=
             | none =>
               match writebufOp st.writebuf impl ws with
               | some (w', r) => ({ st with writebuf := w' }, fmt r)
-              | none => (st, "bad-op")
+              | none =>
+                match St.storageOp st.storage impl ws with
+                | some (s', r) => ({ st with storage := s' }, fmt r)
+                | none => (st, "bad-op")
 
 partial def loop (h : IO.FS.Stream) (out : IO.FS.Stream) (st : DState) : IO Unit := do
   let line ← h.getLine
